@@ -72,8 +72,7 @@ func (core *JApiCore) next(lexeme scanner.Lexeme) *jerr.JApiError {
 		return nil
 
 	case scanner.ContextExplicitOpening:
-		core.processContextBegin()
-		return nil
+		return core.processContextBegin(lexeme)
 
 	case scanner.ContextExplicitClosing:
 		return core.processContextEnd()
@@ -115,8 +114,12 @@ func (core *JApiCore) processBody(lexeme scanner.Lexeme) {
 	core.currentDirective.BodyCoords = coordsFromLexeme(lexeme)
 }
 
-func (core *JApiCore) processContextBegin() {
+func (core *JApiCore) processContextBegin(lexeme scanner.Lexeme) *jerr.JApiError {
+	if core.currentDirective == nil || core.currentDirective.HasExplicitContext {
+		return core.japiError(jerr.ThereIsNoDirectiveForOpening, lexeme.Begin())
+	}
 	core.currentDirective.HasExplicitContext = true
+	return nil
 }
 
 func (core *JApiCore) closeLastExplicitContext() *jerr.JApiError {
